@@ -118,6 +118,11 @@ fn none_bitmap(n: usize) -> BoxedStrategy<Vec<u8>> {
     ].boxed()
 }
 
+/// one multiscalar request of a fixed size and kind (pool points: cheap model)
+pub fn msm_fixed(n: usize, kind: u8) -> BoxedStrategy<Req> {
+    (scalar_vec(n), point_vec(n, point_pool()), none_bitmap(n)).prop_map(move |(s, p, none)| msm_req(kind, s, p, if kind == 2 { none } else { vec![] })).boxed()
+}
+
 pub fn msm_strategy(sizes: Vec<usize>, pool_only: bool) -> BoxedStrategy<Req> {
     let pts = move || if pool_only { point_pool() } else { prop_oneof![3 => point_pool(), 1 => point_any()].boxed() };
     let p1 = pts.clone();
